@@ -30,7 +30,7 @@ CODECS = [
     ("gsm", "GSM 06.10", RAW | 0x20, ["gsm", "enc"], ["gsm", "dec"], 160, 33),
 ]
 BITS = {"g721": 4, "g723_24": 3, "g723_40": 5}
-ENC_KINDS = ["uniform", "walk", "sine", "sweep", "levels", "extremes", "quiet", "steps", "mixture", "alternate", "impulse"]
+ENC_KINDS = ["uniform", "walk", "square", "sine", "sweep", "levels", "extremes", "quiet", "steps", "mixture", "alternate", "impulse"]
 DEC_KINDS = ["noise", "const", "cycle", "runs", "noise", "runs"]
 
 
@@ -48,6 +48,11 @@ def enc_content(rng, kind, n):
             a = max(1, min(32767, a))
             out.append(rng.randrange(-a, a + 1))
         return out
+    if kind == "square":
+        # near full-scale square waves of long period: the predictor overshoots, the ACCUM sum of G.72x leaves 16 bits (KF-G721-ENC-SE)
+        a, per = rng.choice([32700, 32767, 32000, 30000]), rng.choice([16, 16, 12, 20, 29, 40])
+        lo = rng.choice([-1, -1, 0])
+        return [(a if (k // per) % 2 == 1 else lo * a) for k in range(n)]
     if kind == "levels":
         out, a = [], 1
         while len(out) < n:
@@ -112,9 +117,12 @@ def make_jobs(rng, per_codec, big):
         for j in range(per_codec):
             nb = rng.choice([1, 2, 3, 5, 8]) * (2 if big else 1)
             if key == "gsm":
-                nb = max(1, nb // 2)
+                # the model's GSM encoder costs ~10 ms a frame; a changed encoder-table entry (gsm_NRFAC, gsm_DLB) moves few outputs: many frames then
+                nb = rng.choice([8, 16, 24, 32]) if big else max(1, nb // 2)
             kind = ENC_KINDS[j % len(ENC_KINDS)]
             n = nb * spb - rng.choice([0, 0, 1, spb // 2])
+            if kind == "square":
+                n = max(n, 3 * spb)
             xs = [max(-32768, min(32767, v)) for v in enc_content(rng, kind, max(1, n))]
             jobs.append(dict(dir="enc", key=key, disp=disp, word=word, margs=menc, kind=kind, xs=xs, name="%s-enc-%d-%s" % (key, j, kind)))
         for j in range(per_codec):
